@@ -44,7 +44,7 @@ CLAIMED = {
  "C06": ("Theorems: never rejects (ordered field), in-range results identical with the flag on/off for ARBITRARY scalar operations "
          "(bit-identity), continuation by the first/last line piece resp. border cell (C06_linear_left/right/inside, C06_bilinear_cell); "
          "spline statements in Props/C02. Exact checks at Q incl. end cubic recovered from 4 exact samples; on/off bitwise at f64.",
-         "§5 C06", "rounding outside the range: proved for Linear and Bilinear under the standard model (C06_linear_rounding, C06_bilinear_rounding), tested with a scaled tolerance for the spline", "Lean 4 proof + exact-rational correspondence and exact end-polynomial oracle + formula tie (kernels re-translated from the source each run, FT_* theorems) + control-flow tie for Linear / Bilinear (FT_ctl_linear, FT_ctl_bilinear)"),
+         "§5 C06", "rounding outside the range: proved for Linear and Bilinear under the standard model (C06_linear_rounding, C06_bilinear_rounding) and for the spline's evaluation given its coefficients (C06_spline_eval_rounding); the spline's solve is tested with a scaled tolerance", "Lean 4 proof + exact-rational correspondence and exact end-polynomial oracle + formula tie (kernels re-translated from the source each run, FT_* theorems) + control-flow tie for Linear / Bilinear (FT_ctl_linear, FT_ctl_bilinear)"),
  "C07": ("Kernel-checked (any slopes, single lane): C07_mode (periodic evaluation selected iff Periodic boundary and extrapolation), "
          "C07_wrap (outside the range the value is the in-range value at q - kP, k integer, wrapped point in [x0, x_{n-1})), C07_periodic "
          "(S(q + kP) = S(q) for every integer k, using the equal-ends check), C07_ends; rem_euclid law proved for the Rat instance. "
